@@ -1,5 +1,5 @@
-(* Comparer for C16 case files: every logged modulo() call of the implementation enumerated exactly what the cost
-   model says, produced no more residues than its divisor, and numeric expansion was never invoked. *)
+(* Comparer for C16 case files: every logged modulo() call of the implementation enumerated no more than the cost
+   model says (one-sided: the proven bounds are upper bounds, and a rewrite that enumerates less keeps the property), produced no more residues than its divisor, and numeric expansion was never invoked. *)
 From Coq Require Import ZArith List Bool.
 From PV Require Import Util.ListSet Util.Sumset BLS.Model BLS.Cost Check.Compare.
 Import ListNotations.
@@ -8,7 +8,7 @@ Open Scope Z_scope.
 Record call := { c_kind : okind; c_div : Z; c_k : Z; c_sizes : list Z; c_local : Z; c_out : Z }.
 
 Definition check_call (c : call) : bool :=
-  (1 <=? c_div c) && (c_out c <=? c_div c) && (c_local c =? local_cost (c_kind c) (c_sizes c) (c_k c) (c_div c))
+  (1 <=? c_div c) && (c_out c <=? c_div c) && (c_local c <=? local_cost (c_kind c) (c_sizes c) (c_k c) (c_div c))
   && forallb (fun s => s <=? Z.lcm 8 (c_div c)) (c_sizes c)     (* children's residue sets are bounded by the divisor reaching them *)
   && (match c_kind c with KCat => (Nat.leb (length (c_sizes c)) 2) && (c_local c <=? c_div c * c_div c) | _ => true end).
 
